@@ -29,3 +29,7 @@ claim("C16", "exhaustive enumeration of node variants x slot assignments of a de
       "Every variant template of a define_language! zoo (plain slots, Bind, nested Bind, Bind before/after a free child, Bind<Slot>, slot next to binder, payloads, nullary) x every assignment of slot positions from a 3 (thorough 4) name pool (repeated and shadowing names) x three name->slot schemes; per node: occurrence lists by position, public/private partition, slots(), syntax round trip, weak_shape equivalence/bijection/apply/idempotence; all pairs per template: shapes equal iff renaming-equivalent.",
       "Children carry bijective maps; judged through the in-tree derive macro (the harness patches slotted-egraphs-derive to /repo/slotted-egraphs-derive).",
       "DESIGN.md 5 C16")
+claim("C18", "exhaustive enumeration of terms/patterns (round trip) and of all single-edit mutations and short token strings (robustness) through the real parser",
+      "Every term/pattern of size <=3 (thorough 4) of four languages built with enum constructors is printed and parsed back (also in three substitution-bracket wrappings and as 1-2 equation multi-patterns); every prefix/suffix/token edit/splice/multi-byte insertion of every valid text and every token string of length <=5 (6) over a 13-token alphabet goes through Pattern::parse, RecExpr::parse, MultiPattern::parse under catch_unwind; accepted values must be well formed and re-parse.",
+      "Payload values restricted to unambiguous ones as the statement says; byte strings are bounded to the mutation operators listed.",
+      "DESIGN.md 5 C18")
